@@ -408,11 +408,35 @@ def hostile_case(draw):
             "~~s~~", "~~~\ncode", "--", "...", "(c) (tm) +-", "'q' \"q\"", "www.e.org http://e.org e@e.org",
             "[^\u00b2]", "[^\u00b2]: two", "[^\u0661]", "[^\u0661]: one", "[^\u2460]: c", "[^\u2460]", "[^01]: x", "[^01]", "[^-1]: x", "[^1.5]: y",
             "[^A]: u", "[^a ]: v", "[^10]: ten", "[^10]", "[^a]: a\n\n    [^n]: nested", "> [^q]: in quote", "[^q]",
+            # a footnote label that is also the name of another explicit target (docutils then withdraws the name from both)
+            "(a)=\npara a", "{#a}\npara", "```{note}\n:name: a\nn\n```", "```{eval-rst}\n.. _a:\n\npara\n```", "(1)=\npara",
+            "```{eval-rst}\n.. [#] anonymous rst footnote\n\nref [#]_\n```", "```{eval-rst}\n.. [#]\n```", "```{eval-rst}\n.. [*] symbol\n\nref [*]_\n```",
         ]), min_size=1, max_size=6))
         text = "\n\n".join(parts) + "\n"
         ext |= set(mdgen.ALL_EXTENSIONS)
     cfg["enable_extensions"] = sorted(ext)
     return {"gen": f"hostile{k}", "text": text, "cfg": cfg}
+
+
+@st.composite
+def clash_case(draw):
+    """One name used by two or three constructs that each register it with docutils (footnote, citation-like numeric
+    label, '(name)=' target, '{#name}' attribute, directive :name:, rST target / footnote in eval-rst, heading, math
+    label), in any order, referenced or not: docutils withdraws a clashing name from *both* nodes, so transforms meet
+    nodes without names."""
+    name = draw(st.sampled_from(["a", "a", "1", "b c", "A", "2024"]))
+    slug = name.replace(" ", "-")
+    makers = [
+        f"[^{slug}]: footnote text", f"[^{slug}]: footnote text", f"x [^{slug}] y", f"({slug})=\npara target", "{#" + slug + "}\npara attr",
+        "```{note}\n:name: " + slug + "\nbody\n```", "```{eval-rst}\n.. _" + slug + ":\n\nrst para\n```", f"# {name}",
+        "$$\nx\n$$ (" + slug + ")", "```{eval-rst}\n.. [#" + slug + "] rst auto footnote\n\nref [#" + slug + "]_\n```",
+        "```{eval-rst}\n.. [#] anonymous\n\nref [#]_\n```", "```{figure} i.png\n:name: " + slug + "\ncap\n```", f"[](#{slug})",
+        f"[^{slug}]: second definition", "[" + slug + "]{#" + slug + "}",
+    ]
+    parts = draw(st.lists(st.sampled_from(makers), min_size=2, max_size=5))
+    cfg = draw(cfg_st)
+    cfg["enable_extensions"] = sorted(set(cfg["enable_extensions"]) | {"attrs_block", "attrs_inline", "dollarmath", "amsmath"})
+    return {"gen": "clash", "text": "\n\n".join(parts) + "\n", "cfg": cfg}
 
 
 FILE_KINDS = ["missing", "dir", "undecodable", "binary", "empty", "self", "mutual", "valid", "valid"]
@@ -488,7 +512,7 @@ def fault_case(draw):
 
 def all_cases():
     return st.one_of(doc_case(), doc_case(), soup_case(), soup_case(), front_case(), hostile_case(), hostile_case(),
-                     fault_case())
+                     fault_case(), clash_case())
 
 
 def sub_docutils(acc, shard, nshards, tier, seed):
